@@ -32,6 +32,7 @@ from modcorpus import *
 import c05_util as U
 import c05x_util as X
 import c05w_util as W
+import c05v_util as V
 import ext_layer
 
 EXTRA = os.path.join(HARNESS, "moddrv_c05.inc")
@@ -292,6 +293,18 @@ def ext_part(run, model, xmods, rng, tier):
                                                                     % (st, (st + bad[0]) if bad else "?", ",".join(got)[:300], ",".join(m1)[:300]),
                                                                     "module": m["text"], "type": cc["tn"], "command_line": ml[i][:3000], "c_command": "prefixes %s oer %s" % (cc["tn"], h[:3000])},
                               no_input=not any(x.startswith(("X", "O")) for x in got[:-1]))
+
+
+def setext_part(run, vm, rng, tier):
+    """fourth layer (lib/c05v_util.py): extensible SETs / CHOICE of the hand-written module MV5 read by older versions of the
+    type; the newer sender's BER (member orders x TLV forms) and XER; expected value computed in Python; every 2-chunk split,
+    every proper prefix, 1-octet feeding and a random schedule"""
+    items = []
+    for cc, encs in V.cases(rng, tier):
+        run.count("setext_values")
+        for e in encs:
+            items.append((cc, e))
+    sweep_items(run, vm, items, rng, tier == "quick", "C05-setext-sweep")
 
 
 def tagmode_part(run, model, tm, rng, tier, have_model_t=True):
@@ -572,13 +585,14 @@ def main(tier):
         # the second layer draws from streams of its own: the corpus above stays what it was
         rng_s, rng_b, rng_t = Rng(run.seed * 1000003 + 51), Rng(run.seed * 1000003 + 52), Rng(run.seed * 1000003 + 54)
         tmod = W.tagmode_module()
+        vmod = V.module()
         xmods = X.ext_modules(Rng(run.seed * 1000003 + 53), tier)
-        build_modules([cm, wm, sm, tmod] + xmods, tag="c05x", moddrv_extra=EXTRA)
+        build_modules([cm, wm, sm, tmod, vmod] + xmods, tag="c05x", moddrv_extra=EXTRA)
         model = model_build()
     except BuildError as e:
         run.violation("build", {"what": str(e)[-2500:]}, no_input=True)
         return run.finish("proof", (nthm, ndis))
-    for m in mods + [cm, wm, sm, tmod] + xmods:
+    for m in mods + [cm, wm, sm, tmod, vmod] + xmods:
         if not m.get("exe"):
             run.violation("build:module", {"what": "a valid module was rejected or its code does not compile", "module": m["text"],
                                            "asn1c_out": m.get("asn1c_out", "")[-1200:], "build_log": m.get("build_log", "")[-1200:]})
@@ -823,6 +837,10 @@ def main(tier):
             t_tm = _time.time()
             tagmode_part(run, model, tmod, rng_t, tier, have_model_t=not os.environ.get("C05_SKIP_T"))
             run.count("third_layer_tagmode_wall_s", int(_time.time() - t_tm))
+        if vmod.get("exe"):
+            t_v = _time.time()
+            setext_part(run, vmod, Rng(run.seed * 1000003 + 55), tier)
+            run.count("fourth_layer_setext_wall_s", int(_time.time() - t_v))
         if sm.get("exe"):
             skip_tie(run, model, sm, rng_b)
             entref_tie(run, model, sm, scases, rng_s, quick)
